@@ -202,13 +202,13 @@ type c13Viol struct {
 }
 
 type c13Out struct {
-	viol    []c13Viol // first violation of each category, in order of occurrence
-	calls   int       // fault points passed on the primary connection
-	fired   int
-	ops     int
-	classes []string // non-trivial outcome class (at most one per run)
-	trace   []string
-	stats   map[string]bool
+	viol      []c13Viol // first violation of each category, in order of occurrence
+	calls     int       // fault points passed on the primary connection
+	fired     int
+	ops       int
+	classes   []string // non-trivial outcome class (at most one per run)
+	trace     []string
+	stats     map[string]bool
 	stoppedOK bool // a Stop has returned nil earlier in this run
 }
 
